@@ -520,9 +520,11 @@ func hangUp(p p2p.Peer) {
 }
 
 // disconnect hangs up from's connection to the node and waits until both sides forgot it.
-func (n *n3Node) disconnect(from *p2p.Switch) bool {
+func (n *n3Node) disconnect(from *p2p.Switch) bool { return n.disconnectWithin(from, 10*time.Second) }
+
+func (n *n3Node) disconnectWithin(from *p2p.Switch, d time.Duration) bool {
 	nodeID, fromID := n.sw.NodeInfo().ID(), from.NodeInfo().ID()
-	dl := time.Now().Add(10 * time.Second)
+	dl := time.Now().Add(d)
 	for {
 		if p := from.Peers().Get(nodeID); p != nil {
 			hangUp(p)
